@@ -89,7 +89,7 @@ def _do_parse(p, rec, op, armed=None, keep=None):
     return out
 
 
-CPU_BUDGET = 20.0
+CPU_BUDGET = 8.0
 
 
 def child_parse_query(p, rec, q):
@@ -115,7 +115,7 @@ def child_build_group(spec, g, b, qs):
         elif p is None:
             res.append({"nobuild": True})
         else:
-            st, r = fork_call(child_parse_query, p, rec, q)
+            st, r = fork_call(child_parse_query, p, rec, q, timeout=900)
             if st != "ok":
                 raise HarnessError(f"oracle parse child: {st}: {r}")
             res.append(r)
@@ -147,7 +147,8 @@ def child_oracle_group(spec, gd, qs):
             groups.setdefault(canon(q["b"]), []).append(i)
     for key in sorted(groups):
         idxs = groups[key]
-        st, r = fork_call(child_build_group, spec, g, qs[idxs[0]]["b"], [qs[i] for i in idxs])
+        st, r = fork_call(child_build_group, spec, g, qs[idxs[0]]["b"], [qs[i] for i in idxs],
+                          timeout=3000)
         if st != "ok":
             raise HarnessError(f"oracle build child: {st}: {r}")
         for i, x in zip(idxs, r):
@@ -238,7 +239,7 @@ def oracle_batch(spec, queries):
             if k not in where:
                 where[k] = len(uniq)
                 uniq.append(queries[i])
-        r = call_or_raise(child_oracle_group, spec, queries[idxs[0]]["g"], uniq, timeout=600)
+        r = call_or_raise(child_oracle_group, spec, queries[idxs[0]]["g"], uniq, timeout=6000)
         for i in idxs:
             res[i] = r[where[canon(queries[i])]]
     return res
@@ -281,7 +282,7 @@ def run_history(spec, ops, stats=None):
                 if "k" not in f:
                     cnt = (want.get("seams") or {}).get(f["seam"], 0)
                     f["k"] = 1 + min(cnt - 1, int(f["frac"] * cnt)) if cnt > 0 else 0
-    outs = call_or_raise(child_history, spec, ops, timeout=300)
+    outs = call_or_raise(child_history, spec, ops, timeout=1800)
     records, divs = [], []
     pstate = {}
     for i, op in enumerate(ops):
